@@ -117,7 +117,11 @@ def discharge(obligations: list[Obligation], sample_smt2=2):
         by_name.setdefault(ob.name, []).append(ob)
     verdicts = []
     samples = []
-    for name, obs in by_name.items():
+    for name, obs0 in by_name.items():
+        # instances on infeasible paths (explored because a feasibility check came back unknown) say nothing
+        obs = [ob for ob in obs0 if cover_ok(ob)]
+        if not obs:
+            continue
         status = 'discharged'
         backend = set()
         total_ms = 0.0
